@@ -94,13 +94,15 @@ def run(tier, seed, replay=None):
                 bv, bt = base_v[bi]
                 stats[(cfg, "variant-" + vk, "same" if v == bv else ("skip" if "X" in (v[0], bv[0]) else "DIFF"))] = stats.get((cfg, "variant-" + vk, "same" if v == bv else ("skip" if "X" in (v[0], bv[0]) else "DIFF")), 0) + 1
                 if v in ("T", "F") and bv in ("T", "F") and v != bv:
-                    note("variant-" + vk, vt, o, f"verdict {v} for the {vk} formulation but {bv} for the base program:\n{bt}")
+                    from . import c01
+                    risky = c01.features(bases[bi][2]) & c01.RISKY
+                    note("undecided-constraint-literals" if risky else "variant-" + vk, vt, o, f"verdict {v} for the {vk} formulation but {bv} for the base program:\n{bt}")
             for (t, m), o, sols in zip(oo, oo_outs, oo_truth):
                 if e2e.verdict(o) == "F" and sols:
                     note("objects", t, o, f"an object-oriented program is rejected as unsolvable although the reference domains admit {sols[0]}")
             for tag, (txt, o, msg) in worst.items():
                 r = e2e.replay_of(txt, cfg, o)
-                rep.violation(f"[{cfg}] {msg[:500]}", r, tags={tag + ":" + cfg})
+                rep.violation(f"[{cfg}] {msg[:500]}", r, tags={tag + ":" + cfg, tag})
     except vlib.BuildFailure as e:
         rep.violation("the solver does not build in a supported configuration", {"kind": "build", "theorem_or_correspondence": "cmake build of /repo", "log": str(e)}, no_input=True)
     sat_n = truth.count("sat")
